@@ -47,7 +47,7 @@ def biases(rng):
 
 
 ERR_FROM = [0]; ERR_TO = [0]
-ERROR_FAMILY = False
+ERROR_FAMILY = True
 
 
 def timeline(mode, rng_seed, sched_seed, err_step=-1):
